@@ -615,7 +615,8 @@ def rotate_bitmaps_to_roots(bitmaps, roots):
     abs_bitmaps = []
     for bitmap, chord_root in zip(bitmaps, roots):
         abs_bitmaps.append(rotate_bitmap_to_root(bitmap, chord_root))
-    return np.asarray(abs_bitmaps)
+    # Keep the (N, 12) shape also when there is nothing to rotate
+    return np.asarray(abs_bitmaps).reshape(-1, BITMAP_LENGTH)
 
 
 # --- Comparison Routines ---
